@@ -135,6 +135,23 @@ pub fn check_closest(sh: &mut Shard, a: &IG, q: IP, lat: &Lat, verbose: bool) {
     }
 }
 
+/// the coordinate sequences of a purely linear geometry (Line, LineString, MultiLineString, collections of those)
+fn linear_parts(a: &IG) -> Option<Vec<Vec<IP>>> {
+    match a {
+        IG::Line(s, e) => Some(vec![vec![*s, *e]]),
+        IG::LineString(v) => Some(if v.is_empty() { vec![] } else { vec![v.clone()] }),
+        IG::MultiLineString(m) => Some(m.iter().filter(|v| !v.is_empty()).cloned().collect()),
+        IG::Collection(v) => {
+            let mut out = vec![];
+            for x in v {
+                out.extend(linear_parts(x)?);
+            }
+            Some(out)
+        }
+        _ => None,
+    }
+}
+
 pub fn check_interior(sh: &mut Shard, a: &IG, lat: &Lat, verbose: bool) {
     let g = a.to_geo(lat);
     let m = a.to_model();
@@ -173,6 +190,23 @@ pub fn check_interior(sh: &mut Shard, a: &IG, lat: &Lat, verbose: bool) {
                         sh.violation(&format!("interior_point.intersects|{kind}|-"), detail("interior_point.intersects", a, None, lat, "a point of g".into(), format!("{:?} is in the exterior", c), json!({})));
                     } else if a.dim() == 2 && l != Loc::I {
                         sh.violation(&format!("interior_point.strictly_inside|{kind}|-"), detail("interior_point.strictly_inside", a, None, lat, "a point of the interior (g is areal and valid)".into(), format!("{:?} is on the boundary", c), json!({})));
+                    } else if l == Loc::B {
+                        // purely linear g with a segment of positive length has interior of its own dimension
+                        if let Some(parts) = linear_parts(a) {
+                            if parts.iter().any(|p| p.windows(2).any(|w| w[0] != w[1])) {
+                                let cq = lat.inv(c.0).unwrap();
+                                // known finding (documented choice, pinned by the repository's tests): a part without an interior
+                                // vertex answers with its start point; an interior vertex is used even where it coincides with a
+                                // boundary point of g. Any other boundary point (e.g. the LAST coordinate of a part) is not this.
+                                let by_design = parts.iter().any(|p| {
+                                    let (f, t) = (p[0], p[p.len() - 1]);
+                                    let inner = &p[1..p.len().max(2) - 1];
+                                    (cq == pi(f.0, f.1) && !inner.iter().any(|&v| v != f && v != t)) || inner.iter().any(|&v| cq == pi(v.0, v.1))
+                                });
+                                let cls = if by_design { "interior_point_linear_endpoint" } else { "-" };
+                                sh.violation(&format!("interior_point.strictly_inside|{kind}|{cls}"), detail("interior_point.strictly_inside", a, None, lat, "a point of the (1-dimensional) interior: g is linear and has a segment of positive length".into(), format!("{:?} is a boundary point of g", c), json!({})));
+                            }
+                        }
                     }
                     sh.class(&format!("interior:dim{}:{:?}", a.dim(), l));
                 }
